@@ -102,6 +102,22 @@ def is_abs(node):
     return None
 
 
+def alloc_f64(node, shape_of, what):
+    """zeros(<shape_of>.shape) / np.zeros(<shape_of>.shape[, dtype=<float64 spelling>]): a float64 result array
+    whose dtype does not depend on the dtype of the input"""
+    ok = (isinstance(node, ast.Call) and up(node.func) in ("zeros", "np.zeros", "numpy.zeros")
+          and len(node.args) == 1 and up(node.args[0]) == shape_of + ".shape"
+          and all(k.arg == "dtype" and up(k.value) in ("'f8'", "'<f8'", "'float64'", "float", "np.float64", "numpy.float64")
+                  for k in node.keywords))
+    need(ok, "%s must allocate a float64 array independent of the input dtype (zeros(%s.shape)), got %s" % (what, shape_of, up(node)))
+    return "true"
+
+
+def cast_f64(stmts_text, wanted, what):
+    need(wanted in stmts_text, "%s: `%s`" % (what, wanted))
+    return "true"
+
+
 class Tr:
     """expression translator over Q (kind='Q') or Z (kind='Z').  env maps the *unparsed text* of a
     sub-expression (a name, `x.size`, `cov[ix, iy]`, `weights[sind[k]]`) to a Gallina variable."""
@@ -195,6 +211,8 @@ def t_wmom(tree, D):
     D.append(("gen_wmom_calcerr_default", "bool", cbool(const(ds["calcerr"], (bool,))), "def wmom(..., calcerr=%s" % up(ds["calcerr"])))
     D.append(("gen_wmom_sdev_default", "bool", cbool(const(ds["sdev"], (bool,))), "def wmom(..., sdev=%s" % up(ds["sdev"])))
     b = body_no_doc(fn)
+    D.append(("gen_wmom_weights_f64", "bool", cast_f64([up(x) for x in b], "weights = np.atleast_1d(weights_in).astype(np.float64)",
+                                                       "wmom weights forced to float64"), "weights = np.atleast_1d(weights_in).astype(np.float64)"))
     hits = [s for s in b if isinstance(s, ast.Assign) and up(s.targets[0]) == "wtot"]
     need(len(hits) == 1 and up(hits[0].value) == "weights.sum(axis=0)", "wtot = weights.sum(axis=0)")
     # mean
@@ -252,6 +270,8 @@ def t_wmedian(tree, D):
     b = body_no_doc(fn)
     txt = [up(s) for s in b]
     need("sind = arr.argsort()" in txt and "wtot = weights.sum()" in txt, "wmedian: sind = arr.argsort(); wtot = weights.sum()")
+    D.append(("gen_wmedian_weights_f64", "bool", cast_f64(txt, "weights = np.atleast_1d(weights_in).astype(np.float64)",
+                                                          "wmedian weights forced to float64"), "weights = np.atleast_1d(weights_in).astype(np.float64)"))
     asg = {up(s.targets[0]): s for s in b if isinstance(s, ast.Assign)}
     need("wtot2" in asg and "k" in asg and "sum" in asg, "wmedian assigns wtot2, k, sum")
     D.append(("gen_wm_half", "(wtot : Q) : Q", Tr({"wtot": "wtot"})(asg["wtot2"].value), up(asg["wtot2"])))
@@ -278,6 +298,8 @@ def t_sigma_clip(tree, D):
     D.append(("gen_sc_niter_default", "Z", zlit(const(ds["niter"], (int,))) + "%Z", "def sigma_clip(..., niter=%s" % up(ds["niter"])))
     D.append(("gen_sc_nsig_default", "Q", qlit(const(ds["nsig"], (int, float))), "def sigma_clip(..., nsig=%s" % up(ds["nsig"])))
     b = body_no_doc(fn)
+    need("weights = np.atleast_1d(weights).astype(np.float64)" in up(fn), "sigma_clip weights forced to float64")
+    D.append(("gen_sigma_clip_weights_f64", "bool", "true", "weights = np.atleast_1d(weights).astype(np.float64)"))
     loops = [s for s in b if isinstance(s, ast.For)]
     need(len(loops) == 1 and not loops[0].orelse, "one for loop in sigma_clip")
     lp = loops[0]
@@ -382,6 +404,8 @@ def t_get_stats(tree, D):
     b = body_no_doc(fn)
     txt = [up(s) for s in b]
     need("amin = arr.min(axis=0)" in txt and "amax = arr.max(axis=0)" in txt, "amin/amax = arr.min/max(axis=0)")
+    D.append(("gen_get_stats_data_f64", "bool", cast_f64(txt, "arr = np.atleast_1d(arr_in).astype(np.float64)",
+                                                         "get_stats data forced to float64"), "arr = np.atleast_1d(arr_in).astype(np.float64)"))
     sel = find_if(b, "'nsig' in kw or 'niter' in kw", "get_stats")
     need(up(sel.body[0]) == "do_sigma_clip = True" and up(sel.orelse[0]) == "do_sigma_clip = False", "do_sigma_clip selection")
     br = find_if(b, "do_sigma_clip", "get_stats")
@@ -405,6 +429,9 @@ def t_get_stats(tree, D):
 
 def t_cov(tree, D):
     fn = func(tree, "cov2cor")
+    al = [s for s in body_no_doc(fn) if isinstance(s, ast.Assign) and up(s.targets[0]) == "cor"]
+    need(len(al) == 1, "exactly one `cor = ...` allocation in cov2cor")
+    D.append(("gen_cov2cor_result_f64", "bool", alloc_f64(al[0].value, "cov", "cov2cor result"), up(al[0])))
     fx = [s for s in body_no_doc(fn) if isinstance(s, ast.For)]
     need(len(fx) == 1 and up(fx[0].iter) == "range(cov.shape[0])" and up(fx[0].target) == "ix", "for ix in range(cov.shape[0])")
     bx = fx[0].body
@@ -424,6 +451,9 @@ def t_cov(tree, D):
     D.append(("gen_cor_num", "(cij cxx cyy : Q) : Q", tr(val.left), up(by[2])))
     D.append(("gen_cor_den2", "(cij cxx cyy : Q) : Q", tr(is_sqrt(val.right)), up(by[2])))
     fn = func(tree, "cor2cov")
+    al = [s for s in body_no_doc(fn) if isinstance(s, ast.Assign) and up(s.targets[0]) == "cov"]
+    need(len(al) == 1, "exactly one `cov = ...` allocation in cor2cov")
+    D.append(("gen_cor2cov_result_f64", "bool", alloc_f64(al[0].value, "cor", "cor2cov result"), up(al[0])))
     fx = [s for s in body_no_doc(fn) if isinstance(s, ast.For)]
     need(len(fx) == 1 and up(fx[0].iter) == "range(diagerr.shape[0])" and up(fx[0].target) == "ix"
          and len(fx[0].body) == 1 and isinstance(fx[0].body[0], ast.For) and up(fx[0].body[0].iter) == "range(diagerr.shape[0])"
